@@ -18,6 +18,9 @@ EXTENDS Naturals, Sequences, FiniteSets, TLC, Json
 Kinds == {"token", "regex", "skip"}
 Named == {"priority", "callback", "ignore", "allow_greedy"}
 Items == {"skip", "extras", "error", "subA", "subB", "utf8", "lifetime", "ltnone", "type"}
+(* more forms of the same items: the error type with a callback (group form), utf8 = false, and a skip whose      *)
+(* byte-string pattern is acceptable only BECAUSE the lexer is a byte lexer - wherever `utf8 = false` stands       *)
+Forms == {"errorcb", "utf8f", "skipb"}
 (* items that change nothing about the lexer itself (where the crate is, where graphs are exported to): *)
 (* listed anywhere, they must not change what the items around them mean                                *)
 Neutral == {"crate", "export_dir"}
@@ -41,6 +44,9 @@ Toks(arg) == CASE arg = "lit"          -> <<"Lit">>
                [] arg = "lifetime"     -> <<"Ident", "Eq", "Other">>                  \* lifetime = 'a
                [] arg = "ltnone"       -> <<"Ident", "Eq", "Ident">>                  \* lifetime = none
                [] arg = "type"         -> <<"Ident", "Ident", "Eq", "Other", "Other", "Ident">>   \* type T = &'a str
+               [] arg = "errorcb"      -> <<"Ident", "Group">>                                   \* error(MyErr, callback = |lex| ..)
+               [] arg = "utf8f"        -> <<"Ident", "Eq", "Ident">>                             \* utf8 = false
+               [] arg = "skipb"        -> <<"Ident", "Group">>                                   \* skip(b"\xff+")
                [] arg = "crate"        -> <<"Ident", "Eq", "Other", "Ident">>                    \* crate = ::logos
                [] arg = "export_dir"   -> <<"Ident", "Eq", "Lit">>                               \* export_dir = "dir"
 
@@ -87,16 +93,19 @@ VARIABLE c
 NamedSets(k, p) == {T \in SUBSET Named : ~(p /\ "callback" \in T) /\ ("allow_greedy" \in T => k # "token")}
 (* shapes of the callback expression: commas, angle brackets and comparison operators inside it    *)
 (* belong to the callback, whatever follows it                                                      *)
-CbVals == {"simple", "lt", "shift", "generic", "tuple", "block"}
+CbVals == {"simple", "lt", "shift", "generic", "tuple", "block", "bitor"}     \* bitor: a `|` operator in the body, after the two that delimit the parameter
 HasCb(p, s) == p \/ \E i \in DOMAIN s : s[i] = "callback"
 AttrCasesFor(k, p) == {[t |-> "attr", kind |-> k, poscb |-> p, named |-> pc[1], cbv |-> pc[2]] :
                          pc \in {q \in (UNION {Perms(S) : S \in NamedSets(k, p)}) \X (CbVals \cup {"none"}) :
                                   (q[2] = "none") = ~HasCb(p, q[1])}}
 AttrCases == UNION {AttrCasesFor(k, p) : k \in Kinds, p \in BOOLEAN}
 ItemCases == {[t |-> "items", kind |-> "logos", poscb |-> FALSE, named |-> s, cbv |-> "none"] :
-                s \in {q \in UNION {Perms(S) : S \in {T \in SUBSET (Items \cup Neutral) :
+                s \in {q \in UNION {Perms(S) : S \in {T \in SUBSET (Items \cup Neutral \cup Forms) :
                                                                    /\ Cardinality(T) >= 2
-                                                                   /\ Cardinality(T) <= (IF T \cap Neutral = {} THEN 5 ELSE 4)
+                                                                   /\ Cardinality(T) <= (IF T \cap Forms # {} THEN 3 ELSE IF T \cap Neutral = {} THEN 5 ELSE 4)
+                                                                   /\ ~({"error", "errorcb"} \subseteq T) /\ ~({"utf8", "utf8f"} \subseteq T)
+                                                                   /\ ("skipb" \in T => "utf8f" \in T /\ "skip" \notin T)      \* two skips in another order are the same lexer with other leaf numbers
+                                                                   /\ ("utf8f" \in T => T \cap {"lifetime", "ltnone", "type"} = {})
                                                                    /\ ("subB" \in T => "subA" \in T)
                                                                    /\ ~({"lifetime", "ltnone"} \subseteq T)}} :
                          \A i, j \in DOMAIN q : (q[i] = "subA" /\ q[j] = "subB") => i < j}}
